@@ -2,6 +2,7 @@ import HecsModel.Model.WorldJudge
 import HecsModel.Model.BitsJudge
 import HecsModel.Model.BorrowJudge
 import HecsModel.Model.ContainerJudge
+import HecsModel.Model.GuardJudge
 /-
   `hecs_judge`: reads a trace on stdin, one request per line, answers one line per request.
 
@@ -23,6 +24,7 @@ structure JState where
   specDead : Bool := false
   borrow : BorrowJudge.St := {}
   containers : ContainerJudge.CState := {}
+  guards : GuardJudge.JSt := {}
 
 def splitArrow (line : String) : String × Option String :=
   match line.splitOn " => " with
@@ -86,6 +88,9 @@ def stepLine (st : JState) (line : String) : JState × String :=
         match rhs with
         | none => (st, "MODEL " ++ model)
         | some r => if r.trimAscii.toString == model then (st, "ok") else (st, "SPEC model=" ++ model)
+    | "borrow" =>
+      let (g, ans) := GuardJudge.stepLine st.guards lhs rhs
+      ({ st with guards := g }, ans)
     | "sched-borrow" =>
       let (b, ans) := BorrowJudge.stepLine st.borrow lhs rhs
       ({ st with borrow := b }, ans)
